@@ -197,6 +197,34 @@ def pmap(func, shards, nproc=None, chunksize=1):
     return total
 
 
+def run_optimized(prop, tier):
+    """The interpreter's own flags as a dimension: the module's rejection battery once more in a child started with `python -O`
+    (assert statements stripped).  -> Acc with the child's counters and violations (keys marked '(python -O)')."""
+    import json
+    import subprocess
+    acc = Acc()
+    env = dict(os.environ)
+    env["PYTHONPATH"] = VERIF + os.pathsep + env.get("PYTHONPATH", "")
+    r = subprocess.run([sys.executable, "-O", "-B", "-m", "vmc.optrun", prop, tier], cwd=VERIF, env=env, capture_output=True, text=True)
+    doc = None
+    for line in r.stdout.splitlines():
+        if line.startswith("VMC-OPT-JSON "):
+            doc = json.loads(line[len("VMC-OPT-JSON "):])
+    if doc is None or not doc.get("optimized"):
+        acc.extra.setdefault("harness_errors", []).append("python -O child of %s gave no result (rc=%s): %s" % (prop, r.returncode, r.stderr[-400:]))
+        return acc
+    acc.states += doc["states"]
+    acc.transitions += doc["transitions"]
+    acc.traces += doc["traces"]
+    acc.evaluations += doc["evaluations"]
+    acc.bump("python_O_child_states", doc["states"])
+    for v in doc["violations"]:
+        acc.viol(v["key"] + "(python -O)", v["what"] + " [interpreter started with -O: assert statements stripped]", dict(v["case"], optimized=True))
+    for h in doc.get("harness_errors", []):
+        acc.extra.setdefault("harness_errors", []).append("python -O child: " + h)
+    return acc
+
+
 # ---------------------------------------------------------------------------------------
 def load_known(prop):
     """KNOWN_FINDINGS.txt: 'known: property=<id> key=<key> text' / 'fixed: property=<id> <commit> text'."""
@@ -366,13 +394,57 @@ def finish(prop, tier, seed, acc, t0, rule, bounds, exhaustive=True, assumptions
     return rc
 
 
+class _WriteOnly:
+    def write(self, s):
+        return len(s)
+
+
+@contextlib.contextmanager
+def istate(seq):
+    """The state of the interpreter around a call, as a dimension: for half of the sequences (a deterministic function of
+    the sequence) - one eighth each with an ASCII-only stdout, the library is called with numpy's floating-point error handling set to 'raise', with warnings turned into
+    errors, or both.  The statements say "returns" / "never fails" without reference to such settings; results must be the same."""
+    import warnings
+    import zlib
+    import numpy as np
+    k = zlib.crc32(("istate:" + seq).encode()) % 8
+    if k == 4:
+        # whatever the library prints goes to a stream that can only encode ASCII (PYTHONIOENCODING=ascii, a C locale, a pipe)
+        old_out = sys.stdout
+        k2 = zlib.crc32(("stdout:" + seq).encode()) % 3
+        if k2 == 0:
+            sys.stdout = io.TextIOWrapper(io.BytesIO(), encoding="ascii", errors="strict", write_through=True)
+        elif k2 == 1:
+            sys.stdout = None                 # e.g. pythonw / a detached process: print() is then a no-op
+        else:
+            sys.stdout = _WriteOnly()         # an object that only has write(): no flush, no encoding, no fileno
+        try:
+            yield ("ascii-stdout", "stdout-None", "write-only-stdout")[k2]
+        finally:
+            sys.stdout = old_out
+        return
+    if k < 5:
+        yield "default"
+        return
+    old = np.geterr()
+    with warnings.catch_warnings():
+        if k in (6, 7):
+            warnings.simplefilter("error")
+        if k in (5, 7):
+            np.seterr(all="raise")
+        try:
+            yield ("numpy-raise", "warnings-error", "numpy-raise+warnings-error")[k - 5]
+        finally:
+            np.seterr(**old)
+
+
 def short(x, n=80):
     """A long sequence / number shortened for messages (the full value is in the replay file)."""
     x = str(x)
     return x if len(x) <= n else x[:n - 20] + "...(%d characters)" % len(x)
 
 
-ROUTES = ("plain", "plain", "plain", "lower", "spaced", "SeqObj", "mixed", "plain")
+ROUTES = ("plain", "plain", "plain", "lower", "spaced", "SeqObj", "mixed", "plain", "deepcopy", "pickle")
 
 
 def route_of(seq):
@@ -382,7 +454,8 @@ def route_of(seq):
 
 def sp(seq):
     """SequenceParameters for `seq` through one of the construction routes that the statements declare equivalent
-    (C13: upper-casing and whitespace removal; SeqObj = a backend Sequence of the same residues).  The route is a
+    (C13: upper-casing and whitespace removal; SeqObj = a backend Sequence of the same residues; a deep copy or a pickle round trip of
+    the object).  The route is a
     deterministic function of the sequence, so a replay takes the same one."""
     from localcider.sequenceParameters import SequenceParameters
     r = route_of(seq)
@@ -395,6 +468,12 @@ def sp(seq):
     if r == "SeqObj":
         from localcider.backend.sequence import Sequence
         return SequenceParameters(SeqObj=Sequence(seq))
+    if r == "deepcopy":          # a duplicate of a freshly built object answers like the object
+        import copy
+        return copy.deepcopy(SequenceParameters(seq))
+    if r == "pickle":
+        import pickle
+        return pickle.loads(pickle.dumps(SequenceParameters(seq), protocol=len(seq) % 6))
     return SequenceParameters(seq)
 
 
